@@ -19,6 +19,7 @@ n = len(metas)
 r1 = [m for m in metas if m.get("round") == 1]
 r2 = [m for m in metas if m.get("round") == 2]
 r3 = [m for m in metas if m.get("round") == 3]
+r4 = [m for m in metas if m.get("round") == 4]
 
 
 def verdict(m, label=""):
@@ -30,6 +31,7 @@ caught_now = sum(1 for m in metas if verdict(m) == "CAUGHT")
 r1_first = sum(1 for m in r1 if "first built" in m.get("history", ""))
 r2_before = sum(1 for m in r2 if verdict(m, "before-round2-strengthening") == "CAUGHT")
 r3_before = sum(1 for m in r3 if verdict(m, "before-round3-strengthening") == "CAUGHT")
+r4_before = sum(1 for m in r4 if verdict(m, "before-round4-strengthening") == "CAUGHT")
 missed_now = [m["id"] for m in metas if verdict(m) != "CAUGHT"]
 table = subprocess.run(["python3", os.path.join(VERIF, "tools", "seeded_table.py")], stdout=subprocess.PIPE).stdout.decode()
 s += f'''
@@ -37,16 +39,16 @@ s += f'''
 
 ## 12. Seeded changes: which check catches which change
 
-{n} changes to gldap (six per property, in three rounds) were produced by fresh
+{n} changes to gldap (eight per property, in four rounds) were produced by fresh
 sub-agents that were given **only the text of one property** and a scratch
 worktree of `/repo` - nothing from `/verif` - and asked for a change that still
 compiles, still passes the repository's suite and breaks the property in a way
 that needs something specific to manifest (an interleaving, a fault at a
 particular point, a multi-step sequence, an unusual input, two cooperating
-sites), together with a demonstration. The second and third round were
+sites), together with a demonstration. The second, third and fourth round were
 additionally told which ideas the earlier rounds had already used, and the
-third was asked for the subtlest change it could still demonstrate (narrow
-trigger regions welcome as long as they lie inside the property's own domain).
+third and fourth were asked for the subtlest change they could still demonstrate
+(narrow trigger regions welcome as long as they lie inside the property's own domain).
 Each change was confirmed before
 it was kept (`tools/seeded.py confirm`: fresh worktree of `/repo` HEAD outside
 `/repo` and `/verif`, patch applies, `go build ./...`, repository suite passes
@@ -69,13 +71,47 @@ quick tier as it stood after round 1 (checkout of `/verif` at `79f8b6f`, run
 with `tools/seeded.py run --check-dir`): {r2_before} caught, {len(r2) - r2_before} missed.
 **Round 3** ({len(r3)} changes). The quick tier as it stood after round 2
 (checkout at `8b2cefa`): {r3_before} caught, {len(r3) - r3_before} missed.
+**Round 4** ({len(r4)} changes, produced in the last two hours of the work). The quick
+tier as it stood after round 3 (checkout at `eae04cf`; evaluated in parallel
+*lanes* - pairs of scratch worktrees of `/repo` and `/verif`, `tools/lanes.sh`,
+`tools/seeded.py run --repo --check-dir` - so that four changes can be evaluated
+at once without touching `/repo`): {r4_before} caught, {len(r4) - r4_before} missed.
 The misses were not accidents of the seed; each pointed at a region of the
 property's own domain that the generator did not reach. The checks were
 strengthened by widening the *generators and scenario families* along the
 property's quantifier - never by special-casing a patch - first from the
 sub-agents' descriptions, then from the remaining misses; in the last complete
 run (seed 1) the quick tier catches **{caught_now} of {n}**{(" (not caught: " + ", ".join(missed_now) + " - see below)") if missed_now else ""}. What was added is listed per property in the "As built" notes of §4
-and per change in `meta.json` (`history`). The lessons that generalise:
+and per change in `meta.json` (`history`). `C04-h` is kept but disputed: it
+lets `WithApplicationCode` override the tag of a *modify* response, and the
+statement of C04 reads "the one belonging to that constructor (or the
+application code given)" - under that wording the changed tree still satisfies
+the property, so the check (which only generates the options each constructor
+documents) is not widened to call it a violation. The lessons that generalise:
+
+* *The object has a history* (round 4: C14-g, C03-g, C19-g, C09-g/h, C10-g/h):
+  a control that is encoded, modified in place and encoded again; a route
+  registered on a mux that is already serving; a password changed over LDAP
+  before the bind; a connection that never sent a request but still owns an ID;
+  a second server starting in the same process; an earlier handler of the
+  connection that panicked or whose write failed before the Unbind arrives.
+  Every check whose case was "build, use once, judge" got a second use.
+* *Hostile values in harmless places* (C07-g, C14-h, C17-g, C18-g): a panic
+  value whose `Error()` panics, a decimal string with leading zeros, junk
+  between `]` and the port colon, a certificate chain padded with somebody
+  else's public certificate.
+* *Seconds, not milliseconds* (C13-h, C08-h, C05-h, C17-h, C11-g): budgets a
+  maintainer would plausibly pick (2 s, 5 s) are only crossed by scenarios
+  whose handlers, stalls and idle periods last that long; one case in a few
+  dozen is enough, and it keeps the quick tier under a minute per property.
+* *A synchronisation in the harness is an edge in the race detector* (C15-g,
+  again): the gate that released the late writers was opened by a channel
+  from the StartTLS handler - which ordered the very accesses the part was
+  meant to expose. The gate is now opened by the clock alone.
+* *Inconclusive is not a verdict* (C11-g): TLS sessions that do not read cost
+  crypto/tls's five close_notify seconds per Close; scenarios containing them
+  ended as "too slow to judge" until their first bound was made 7 s - only then
+  do they count, and only then does serialising those five seconds show.
 
 * *The moment of Stop* (round 3, and the sweep of hour 10): connections that
   exist *before* Stop is called say nothing about a connection the accept loop
